@@ -25,7 +25,7 @@
 EXTENDS Integers, Sequences, FiniteSets, TLC, Json, BlockManagerProps
 
 CONSTANTS MaxMsgs,          \* messages / events per history
-          MaxRestarts, MaxFaults,
+          MaxRestarts, MaxFaults, MaxCrashes,
           FixCpFloor,       \* reorg floor uses the checkpoint AT the tip height too
           FixListReset,     \* header list re-anchored on the stored tip on early returns
           FixFilterTip      \* rollBackToHeight lowers the in-memory filter tip
@@ -40,12 +40,13 @@ VARIABLES bfile, bidx, btip,      \* block-header store: file, index (id+1 -> he
           lastReq,                \* lastRequested hash (id, -1 none)
           hTip, fhTip,            \* in-memory published tips (heights)
           ev,                     \* events emitted by the last action
-          nmsgs, nrestarts, nfaults,
+          nmsgs, nrestarts, nfaults, ncrashes,
+          down,                   \* TRUE: the process died, only Recover is possible
           abs, act, viol
 
 wvars == <<bfile, bidx, btip, ffile, ftip, hl, nextCp, sync, cands, conn, lastBlock,
            startH, disc, lastReq, hTip, fhTip, ev>>
-vars  == <<wvars, nmsgs, nrestarts, nfaults, abs, act, viol>>
+vars  == <<wvars, nmsgs, nrestarts, nfaults, ncrashes, down, abs, act, viol>>
 
 Peers == 1..NPeers
 HMax  == MaxHeight + 2            \* heights 0..MaxHeight+1 are read back
@@ -55,7 +56,8 @@ Max(a, b) == IF a >= b THEN a ELSE b
 W == [bfile |-> bfile, bidx |-> bidx, btip |-> btip, ffile |-> ffile, ftip |-> ftip,
       hl |-> hl, nextCp |-> nextCp, sync |-> sync, cands |-> cands, conn |-> conn,
       lastBlock |-> lastBlock, startH |-> startH, disc |-> disc, lastReq |-> lastReq,
-      hTip |-> hTip, fhTip |-> fhTip, ev |-> <<>>, panic |-> FALSE]
+      hTip |-> hTip, fhTip |-> fhTip, ev |-> <<>>, panic |-> FALSE,
+      budget |-> -1, crashed |-> FALSE]
 
 Commit(w) ==
   /\ bfile' = w.bfile /\ bidx' = w.bidx /\ btip' = w.btip
@@ -81,10 +83,19 @@ FTip(w) == LET h == IdxOf(w, w.ftip)
                r == ReadF(w, h)
            IN  IF h = NF \/ r = NF THEN <<ERR, ERR>> ELSE <<r, h>>
 
+\* Crash points between store calls: `budget` is the number of store mutations
+\* that still reach the disk (-1 = no crash planned). Once it is used up the
+\* process is dead: no later mutation happens (the remaining control flow of
+\* the action is irrelevant - only the stores survive a crash).
+Dead(w)  == w.crashed \/ w.budget = 0
+Spend(w) == IF w.budget > 0 THEN [w EXCEPT !.budget = @ - 1] ELSE w
+Die(w)   == [w EXCEPT !.crashed = TRUE]
+
 \* WriteHeaders(entries): append positionally, index by the caller's heights,
 \* tip := entry with the greatest height.
-WriteB(w, es) ==
-  IF es = <<>> THEN w ELSE
+WriteB(w0, es) ==
+  IF es = <<>> THEN w0 ELSE IF Dead(w0) THEN Die(w0) ELSE
+  LET w == Spend(w0) IN
   LET ids  == [k \in 1..Len(es) |-> es[k][1]]
       top  == CHOOSE k \in 1..Len(es) : \A j \in 1..Len(es) : es[j][2] <= es[k][2]
       nidx == [i \in 1..NIds |->
@@ -94,8 +105,10 @@ WriteB(w, es) ==
   IN  [w EXCEPT !.bfile = @ \o ids, !.bidx = nidx, !.btip = es[top][1]]
 
 \* RollbackLastBlock of the block store. Returns [w, ok, id, h] (new tip).
-RollbackB(w) ==
-  LET h == IdxOf(w, w.btip)
+RollbackB(w0) ==
+  IF Dead(w0) THEN [w |-> Die(w0), ok |-> FALSE, id |-> ERR, h |-> ERR] ELSE
+  LET w == Spend(w0)
+      h == IdxOf(w, w.btip)
   IN  IF h = NF \/ h < 1 \/ h + 1 > Len(w.bfile)
       THEN [w |-> w, ok |-> FALSE, id |-> ERR, h |-> ERR]
       ELSE LET prev == w.bfile[h]
@@ -106,8 +119,10 @@ RollbackB(w) ==
                 ok |-> TRUE, id |-> prev, h |-> h - 1]
 
 \* RollbackLastBlock(newTip) of the filter store. Returns [w, ok, h].
-RollbackF(w, newTip) ==
-  LET h == IdxOf(w, w.ftip)
+RollbackF(w0, newTip) ==
+  IF Dead(w0) THEN [w |-> Die(w0), ok |-> FALSE, h |-> ERR] ELSE
+  LET w == Spend(w0)
+      h == IdxOf(w, w.ftip)
   IN  IF h = NF \/ h < 1 \/ h > Len(w.ffile)
       THEN [w |-> w, ok |-> FALSE, h |-> ERR]
       ELSE [w |-> [w EXCEPT !.ftip = newTip, !.ffile = SubSeq(@, 1, Len(@) - 1)],
@@ -122,7 +137,8 @@ MaxCp == IF CpHeights = {} THEN -1 ELSE CHOOSE c \in CpHeights : \A d \in CpHeig
 \* blockmanager.go rollBackToHeight. Returns [w, ok].
 RECURSIVE RollLoop(_, _, _, _, _)
 RollLoop(w, bsId, bsH, regH, target) ==
-  IF bsH <= target THEN [w |-> w, ok |-> TRUE]
+  IF w.crashed THEN [w |-> w, ok |-> TRUE]
+  ELSE IF bsH <= target THEN [w |-> w, ok |-> TRUE]
   ELSE LET fh == FetchHeader(w, bsId)
        IN  IF fh[1] = ERR THEN [w |-> w, ok |-> FALSE]
            ELSE
@@ -133,10 +149,10 @@ RollLoop(w, bsId, bsH, regH, target) ==
                rf0    == IF doF THEN RollbackF(w, newTip) ELSE [w |-> w, ok |-> TRUE, h |-> regH]
                rf     == IF doF /\ rf0.ok /\ FixFilterTip
                          THEN [rf0 EXCEPT !.w.fhTip = rf0.h] ELSE rf0
-           IN  IF ~rf.ok THEN [w |-> w, ok |-> FALSE]
+           IN  IF ~rf.ok THEN [w |-> rf.w, ok |-> FALSE]
                ELSE
                LET rb == RollbackB(rf.w)
-               IN  IF ~rb.ok THEN [w |-> rf.w, ok |-> FALSE]
+               IN  IF ~rb.ok THEN [w |-> rb.w, ok |-> FALSE]
                    ELSE
                    LET ph == FetchHeader(rb.w, newTip)
                    IN  IF ph[1] = ERR THEN [w |-> rb.w, ok |-> FALSE]
@@ -198,7 +214,8 @@ KnownWork(w, cnt, pos, cur, acc) ==
 
 RECURSIVE HdrLoop(_, _, _, _, _, _, _)
 HdrLoop(w, p, b, i, wb, recv, fin) ==
-  IF i > Len(b) THEN [w |-> w, wb |-> wb, recv |-> recv, fin |-> fin, ret |-> FALSE]
+  IF w.crashed THEN Ret(w)
+  ELSE IF i > Len(b) THEN [w |-> w, wb |-> wb, recv |-> recv, fin |-> fin, ret |-> FALSE]
   ELSE
   LET h    == b[i]
       prev == w.hl[Len(w.hl)]
@@ -283,9 +300,9 @@ HandleWriteCF(w, k) ==
       endH == IdxOf(w, stop)
       st   == endH - (k - 1)
       ids  == [j \in 1..k |-> ReadB(w, st + j - 1)]
-      w1   == [w EXCEPT !.ffile = @ \o ids, !.ftip = ids[k], !.fhTip = st + k - 1]
+      w1   == [Spend(w) EXCEPT !.ffile = @ \o ids, !.ftip = ids[k], !.fhTip = st + k - 1]
       evs  == [j \in 1..k |-> <<1, ids[j], st + j - 1, -1, st + k - 1, st + k - 1>>]
-  IN  [w1 EXCEPT !.ev = @ \o evs]
+  IN  IF Dead(w) THEN Die(w) ELSE [w1 EXCEPT !.ev = @ \o evs]
 
 Backlog(w, k) ==
   IF w.fhTip = k THEN <<>>
@@ -307,37 +324,53 @@ ObsOf(w) ==
    cur |-> IF Synced(w) THEN 1 ELSE 0,
    disc |-> w.disc]
 
-Obs == ObsOf([W EXCEPT !.ev = ev])
+\* After a crash only the stores exist; everything in memory is blanked.
+MaskDead(o) == [o EXCEPT !.ev = <<>>, !.bl = [k \in 1..(HMax - 1) |-> <<ERR>>],
+                         !.sync = 0, !.cur = 0, !.disc = [p \in Peers |-> 0]]
+
+Obs == IF down THEN MaskDead(ObsOf([W EXCEPT !.ev = ev])) ELSE ObsOf([W EXCEPT !.ev = ev])
 
 Act(op, p, batch, k, res) == [op |-> op, p |-> p, batch |-> batch, k |-> k, res |-> res]
 
 Finish(w, a0) ==
-  LET a == IF w.panic THEN [a0 EXCEPT !.res = "panic"] ELSE a0
+  LET a == IF w.crashed THEN [a0 EXCEPT !.res = "crash"]
+           ELSE IF w.panic THEN [a0 EXCEPT !.res = "panic"] ELSE a0
+      o2 == IF w.crashed THEN MaskDead(ObsOf(w)) ELSE ObsOf(w)
   IN  /\ Commit(w)
       /\ act' = a
-      /\ abs' = AbsNext(abs, a, ObsOf(w))
-      /\ viol' = Viol(abs, Obs, a, abs', ObsOf(w))
+      /\ abs' = AbsNext(abs, a, o2)
+      /\ viol' = Viol(abs, Obs, a, abs', o2)
 
-Tick == nmsgs < MaxMsgs /\ nmsgs' = nmsgs + 1 /\ UNCHANGED nrestarts
+Tick == ~down /\ nmsgs < MaxMsgs /\ nmsgs' = nmsgs + 1 /\ UNCHANGED nrestarts
 
 NewPeer(p, sh) ==
-  /\ Tick /\ ~conn[p] /\ UNCHANGED nfaults
+  /\ Tick /\ ~conn[p] /\ UNCHANGED <<nfaults, ncrashes, down>>
   /\ Finish(HandleNewPeer(W, p, sh), Act("NewPeer", p, <<>>, sh, "ok"))
 
 DonePeer(p) ==
-  /\ Tick /\ conn[p] /\ UNCHANGED nfaults
+  /\ Tick /\ conn[p] /\ UNCHANGED <<nfaults, ncrashes, down>>
   /\ Finish(HandleDonePeer(W, p), Act("DonePeer", p, <<>>, 0, "ok"))
 
 Inv(p, id) ==
-  /\ Tick /\ conn[p] /\ UNCHANGED nfaults
+  /\ Tick /\ conn[p] /\ UNCHANGED <<nfaults, ncrashes, down>>
   /\ Finish(HandleInv(W, p, id), Act("Inv", p, <<id>>, 0, "ok"))
 
 \* fw = 1: the store's WriteHeaders fails for the validated batch (I/O error)
 Headers(p, b, fw) ==
   /\ Tick /\ conn[p]
   /\ fw = 1 => nfaults < MaxFaults
-  /\ nfaults' = nfaults + fw
+  /\ nfaults' = nfaults + fw /\ UNCHANGED <<ncrashes, down>>
   /\ Finish(HandleHeaders(W, p, b, fw = 1), Act("Headers", p, b, fw, "ok"))
+
+\* The process dies after cb store mutations of this message reached the disk
+\* (act.k = 10 + cb). Enabled only if the message performs more than cb.
+HeadersCrash(p, b, cb) ==
+  /\ Tick /\ conn[p] /\ ncrashes < MaxCrashes
+  /\ ncrashes' = ncrashes + 1 /\ UNCHANGED nfaults
+  /\ LET w == HandleHeaders([W EXCEPT !.budget = cb], p, b, FALSE)
+     IN  /\ w.crashed
+         /\ down' = TRUE
+         /\ Finish(w, Act("Headers", p, b, 10 + cb, "ok"))
 
 WriteCF(k) ==
   /\ Tick /\ UNCHANGED nfaults
@@ -345,11 +378,27 @@ WriteCF(k) ==
        /\ ft[1] # ERR /\ bt[1] # ERR /\ ft[2] + k <= bt[2]
        /\ \A j \in 1..k : ReadB(W, ft[2] + j) >= 0
        /\ IdxOf(W, ReadB(W, ft[2] + k)) = ft[2] + k
+  /\ UNCHANGED <<ncrashes, down>>
   /\ Finish(HandleWriteCF(W, k), Act("WriteCF", 0, <<>>, k, "ok"))
+
+\* Restart after a crash: newBlockManager on whatever the stores hold.
+Recover ==
+  /\ down /\ down' = FALSE /\ UNCHANGED <<nmsgs, nrestarts, nfaults, ncrashes>>
+  /\ LET t == BTip(W)
+         f == FTip(W)
+         w == IF t[1] = ERR \/ f[1] = ERR THEN W
+              ELSE [W EXCEPT !.hl = << <<t[1], t[2]>> >>, !.nextCp = FindNextCp(t[2]),
+                             !.sync = 0, !.cands = <<>>,
+                             !.conn = [p \in Peers |-> FALSE],
+                             !.lastBlock = [p \in Peers |-> 0], !.startH = [p \in Peers |-> 0],
+                             !.disc = [p \in Peers |-> 0], !.lastReq = -1,
+                             !.hTip = t[2], !.fhTip = f[2]]
+     IN  Finish(w, Act("Recover", 0, <<>>, 0, IF t[1] = ERR \/ f[1] = ERR THEN "err" ELSE "ok"))
 
 \* Process restart: newBlockManager on the persisted stores; peers are gone.
 Restart ==
-  /\ nrestarts < MaxRestarts /\ nrestarts' = nrestarts + 1 /\ UNCHANGED <<nmsgs, nfaults>>
+  /\ ~down /\ nrestarts < MaxRestarts /\ nrestarts' = nrestarts + 1
+  /\ UNCHANGED <<nmsgs, nfaults, ncrashes, down>>
   /\ BTip(W)[1] # ERR /\ FTip(W)[1] # ERR
   /\ LET t == BTip(W)
          w == [W EXCEPT !.hl = << <<t[1], t[2]>> >>, !.nextCp = FindNextCp(t[2]),
@@ -376,7 +425,7 @@ Init ==
   /\ conn = [p \in Peers |-> FALSE] /\ lastBlock = [p \in Peers |-> 0]
   /\ startH = [p \in Peers |-> 0] /\ disc = [p \in Peers |-> 0]
   /\ lastReq = -1 /\ hTip = Len(c) - 1 /\ fhTip = fl - 1 /\ ev = <<>>
-  /\ nmsgs = 0 /\ nrestarts = 0 /\ nfaults = 0
+  /\ nmsgs = 0 /\ nrestarts = 0 /\ nfaults = 0 /\ ncrashes = 0 /\ down = FALSE
   /\ abs = AbsInit /\ act = Act("Init", 0, c, fl, "ok") /\ viol = {}
 
 Next ==
@@ -384,8 +433,10 @@ Next ==
   \/ \E p \in Peers : DonePeer(p)
   \/ \E p \in Peers : \E id \in InvIds : Inv(p, id)
   \/ \E p \in Peers : \E k \in 1..Len(Batches) : \E fw \in {0, 1} : Headers(p, Batches[k], fw)
+  \/ \E p \in Peers : \E k \in 1..Len(Batches) : \E cb \in 0..4 : HeadersCrash(p, Batches[k], cb)
   \/ \E k \in 1..MaxCF : WriteCF(k)
   \/ Restart
+  \/ Recover
 
 Spec == Init /\ [][Next]_vars
 
@@ -400,7 +451,7 @@ State == [bfile |-> bfile, bidx |-> bidx, btip |-> btip, ffile |-> ffile, ftip |
           hl |-> hl, nextCp |-> nextCp, sync |-> sync, cands |-> cands, conn |-> conn,
           lastBlock |-> lastBlock, startH |-> startH, disc |-> disc, lastReq |-> lastReq,
           hTip |-> hTip, fhTip |-> fhTip, nmsgs |-> nmsgs, nrestarts |-> nrestarts,
-          nfaults |-> nfaults]
+          nfaults |-> nfaults, ncrashes |-> ncrashes, down |-> down]
 View == <<bfile, bidx, btip, ffile, ftip, hl, nextCp, sync, cands, conn, lastBlock,
-          startH, disc, lastReq, hTip, fhTip, nmsgs, nrestarts, nfaults>>
+          startH, disc, lastReq, hTip, fhTip, nmsgs, nrestarts, nfaults, ncrashes, down>>
 =============================================================================
